@@ -313,7 +313,12 @@ theorem sr_step {L H : Nat} {cfg : Cfg} {s : St} (hp : PidWf s.pidMan)
       simp only [K_eq, register, this.1, this.2]
     show SR L H (K (register _ id).2)
     rw [e]; exact h
-  | release id => simp only [step, releasePacketId, K_releaseIfUsed]; exact h
+  | release id =>
+    have e : K (releasePacketId { cfg := cfg, s := s } id) = K { cfg := cfg, s := s } :=
+      releasePacketId_ind (Q := fun c' => K c' = K { cfg := cfg, s := s }) _ id
+        (K_releaseIfUsed _ _) (fun h => h) (fun h => (K_decSendCount _).trans h)
+    show SR L H (K (releasePacketId _ id))
+    rw [e]; exact h
   | erase id => exact sr_eraseStoredPublish h id
   | restoreHandled ids => exact h
   | restorePackets ps => exact sr_restorePackets ps _ hp h
